@@ -30,7 +30,7 @@ def gen_cases(sd, tr):
         for n in (11, 19):
             for (tl, trr) in [(0, 2), (2, 2), (1, 2), (0, 1), (2, 1)]:
                 for ty in ('double', 'float'):
-                    cases.append({'id': len(cases), 'ty': ty, 'M': m, 'K': n + 2, 'N': n, 'tl': tl, 'tr': trr, 'sa': g.next() % 100000, 'sb': g.next() % 100000})
+                    cases.append({'id': len(cases), 'ty': ty, 'M': m, 'K': n + 2, 'N': n, 'tl': tl, 'tr': trr, 'sa': g.next() % 100000, 'sb': g.next() % 100000, 'sys': True})
     for (m, k, n) in shapes:
         pairs = allpairs if tr != 'quick' else g.sample(allpairs, 3)
         tys = ['double', 'float', 'int32', 'int64'] if tr != 'quick' else g.sample(['double', 'float', 'int32', 'int64'], 2)
